@@ -447,6 +447,33 @@ GROUPS[-1][2].extend([
 ])
 
 
+SI = ("N", "SampleIndex")
+STRUCTS["SampleIndex"] = dict(lean="SampleIndex", ctor=None, fields={}, fieldmap={})
+STRUCTS["RunIter"] = dict(lean="RunIter", ctor=lambda v: "(⟨%s, %s, %s⟩ : RunIter)" % (v["offset"], v["pos"], v["limit"]),
+                          fields={"parent": "SKIP", "offset": U, "pos": ("T", [U, U]), "limit": U}, fieldmap={})
+RLV_SELF = dict(lean="RL", var="v", rust="RLVector", mut=False, order=[],
+                fields={"len": ("len", U), "ones": ("ones", U), "rank_index": ("rankIndex", SI), "select_index": ("selectIndex", SI),
+                        "select_zero_index": ("selectZeroIndex", SI), "samples": ("samples", IV), "data": ("data", IV)})
+RLV_CALLS = {"self.blocks": dict(lean="gen_RLVector_blocks m v", ret=U),
+             "self.count_ones": dict(lean="v.ones", ret=U, monadic=False),
+             "self.ones_after": dict(lean="gen_RLVector_ones_after m v {0}", ret=U),
+             "<IntVector>.is_empty": dict(lean="decide ({0}.len = 0)", ret=B, monadic=False),
+             "f": dict(lean="f {0}", ret=U)}
+
+
+def rlv(fn, fuel=(), **kw):
+    return dict(dict(file="rl_vector.rs", impl=r"impl RLVector\s", fn=fn, name="gen_RLVector_" + fn, self=RLV_SELF, calls=RLV_CALLS,
+                     fuel=list(fuel)), **kw)
+
+
+GROUPS[-1][2].extend([
+    rlv("blocks"), rlv("ones_after"), rlv("decode", ["23"]), rlv("run_iter"), rlv("iter_for_block"),
+    dict(file="rl_vector.rs", impl=r"impl RLVector\s", fn="block_for", name="gen_RLVector_block_for", calls=RLV_CALLS,
+         fuel=["high + 1"], params={"f": ("(f : Nat → Outcome Nat)", ("N", "Fn"), "f")}),
+])
+GROUPS[-1] = (GROUPS[-1][0], GROUPS[-1][1] + ["Sds.Model.RL"], GROUPS[-1][2])
+
+
 def generate_fn_files(read, consts_by_file):
     """read(rel) -> source text; consts_by_file: {rel: {NAME: int}} (module / associated constants visible in that file)"""
     files = {}
